@@ -136,6 +136,17 @@ let handle (line : Stdlib.String.t) : Stdlib.String.t =
       let second = if f.(2) = "-" then None else Some (ascii_of_char f.(2).[0]) in
       (match dispatch_eq (f.(1) = "1") second with DComparison -> "comparison" | DLike -> "like" | DErr -> "err")
   | "cache" -> do_cache f
+  | "presence" ->
+      (* presence <history over W D R T> : one source file whose readability changes (W readable, D not); every R is a report of a
+         failure in it, run through the extracted SharedT.reports_from (three time steps per report).  Prints S (the text) or F
+         (nothing: the fallback listing) per report. *)
+      let pres = ref [] and cur = ref false in
+      Stdlib.String.iter (fun c -> match c with 'W' -> cur := true | 'D' -> cur := false | 'R' -> pres := !cur :: !pres | _ -> ()) f.(1);
+      let pres = Array.of_list (List.rev !pres) in
+      let readable t _ = let i = int_of_nat t / 3 in i < Array.length pres && pres.(i) in
+      let ops = List.init (Array.length pres) (fun _ -> coq_string "hist_src.rs") in
+      let out = reports_from (fun _ -> coq_string "TEXT") readable O [] ops in
+      Stdlib.String.concat "," (List.map (function Some _ -> "S" | None -> "F") out)
   | "guard" -> do_guard f
   | "styled" ->
       (* styled <guard ops|-> <no_color> <tty> *)
